@@ -17,7 +17,7 @@ import sys
 
 VERIF = os.path.dirname(os.path.dirname(os.path.abspath(__file__)))
 REPO = os.environ.get('CP_REPO', '/repo')
-GEN = os.path.join(VERIF, 'lean', 'CpModel', 'Gen')
+GEN = os.path.join(os.environ.get('CP_LEAN', os.path.join(VERIF, 'lean')), 'CpModel', 'Gen')
 sys.path.insert(0, REPO)
 
 import cryptoparser  # noqa: E402  pylint: disable=wrong-import-position
